@@ -1,3 +1,4 @@
+mod binbind;
 mod binbox;
 mod e1;
 mod explore;
@@ -31,6 +32,24 @@ fn main() {
         "replay" => replay_file(&args[2]),
         "bench" => bench(&args[2]),
         "worker" => worker(&args[2..]),
+        "bind" => {
+            let mut rep = Report::new("BIND", "model_checking");
+            match args[2].as_str() {
+                "C04" => binbind::bind_c04(&mut rep),
+                "C07" => binbind::bind_c07(&mut rep),
+                "C08" => binbind::bind_c08(&mut rep),
+                "C09" => binbind::bind_c09(&mut rep),
+                "C10" => binbind::bind_c10(&mut rep),
+                "C11" => binbind::bind_c11(&mut rep),
+                "C14" => binbind::bind_c14(&mut rep),
+                _ => binbind::bind_c20(&mut rep),
+            }
+            for v in &rep.violations {
+                println!("VIOLATION {} :: {}", v.fingerprint, v.detail);
+            }
+            println!("{}", serde_json::to_string(&rep.coverage).unwrap());
+            0
+        }
         "explore" => explore_named(&args[2..]),
         _ => usage(),
     };
@@ -44,14 +63,32 @@ fn run_check(id: &str) -> i32 {
             let mut rep = Report::new(id, "model_checking");
             match id {
                 "C01" => e1::check_c01(&mut rep),
-                "C04" => e1::check_c04(&mut rep),
+                "C04" => {
+                    e1::check_c04(&mut rep);
+                    binbind::bind_c04(&mut rep)
+                }
                 "C06" => e1::check_c06(&mut rep),
-                "C07" => e1::check_c07(&mut rep),
-                "C08" => e1::check_c08(&mut rep),
-                "C10" => e1::check_c10(&mut rep),
-                "C11" => e1::check_c11(&mut rep),
+                "C07" => {
+                    e1::check_c07(&mut rep);
+                    binbind::bind_c07(&mut rep)
+                }
+                "C08" => {
+                    e1::check_c08(&mut rep);
+                    binbind::bind_c08(&mut rep)
+                }
+                "C10" => {
+                    e1::check_c10(&mut rep);
+                    binbind::bind_c10(&mut rep)
+                }
+                "C11" => {
+                    e1::check_c11(&mut rep);
+                    binbind::bind_c11(&mut rep)
+                }
                 "C17" => e1::check_c17(&mut rep),
-                _ => e1::check_c20(&mut rep),
+                _ => {
+                    e1::check_c20(&mut rep);
+                    binbind::bind_c20(&mut rep)
+                }
             }
             rep.finish()
         }
@@ -81,9 +118,15 @@ fn run_check(id: &str) -> i32 {
         "C09" | "C14" | "C15" | "C16" | "C19" => {
             let mut rep = Report::new(id, "model_checking");
             match id {
-                "C14" => seq_yaml::check_c14(&mut rep),
+                "C14" => {
+                    seq_yaml::check_c14(&mut rep);
+                    binbind::bind_c14(&mut rep)
+                }
                 "C16" => seq_watch::check_c16(&mut rep),
-                "C09" => seq_resolve::check_c09(&mut rep),
+                "C09" => {
+                    seq_resolve::check_c09(&mut rep);
+                    binbind::bind_c09(&mut rep)
+                }
                 "C15" => seq_fs::check_c15(&mut rep),
                 _ => seq_resolve::check_c19(&mut rep),
             }
